@@ -298,7 +298,7 @@ func genC18(rt *rapid.T, h *harness.H) interface{} {
 	c.Sync = boolFlag(c.Flags, "sync", false)
 	c.Async = boolFlag(c.Flags, "async", true)
 	if c.Sync && c.Contraction {
-		return nil // N6: --sync is the non-polarized mode
+		return nil // --sync is the non-polarized mode, where programs with contraction print another admitted multiset (C03/C04 make no exact claim there)
 	}
 	if c.Sync {
 		c.Async = false // --sync takes precedence in cmd/cli.go
